@@ -89,3 +89,36 @@ package fclient
 //@   ensures lock-released: !locked(c, "mutex")
 //@   loop 1: invariant !locked(c, "mutex")
 //@   loop 2: invariant !locked(c, "mutex")
+
+// ---------------------------------------------------------------- C16: resolution order
+
+// the HTTP well-known lookup and the SRV lookup are the network; abstract
+//@ func LookupWellKnown
+//@   trusted
+//@   ensures delegated-or-error: err == nil ==> result != nil
+//@   assigns nothing
+//@ func lookupSRV
+//@   trusted
+//@   ensures records-well-formed: forall i int :: 0 <= i && i < len(result[0]) ==> (result[0][i] != nil && len(result[0][i].Target) >= 1)
+//@   assigns nothing
+
+//@ func handleNoWellKnown
+//@   property C16
+//@   ensures never-empty: len(results) >= 1
+//@   ensures host-and-tls-name-are-the-server-name: forall i int :: 0 <= i && i < len(results) ==> (results[i].Host == serverName && results[i].TLSServerName == string(serverName))
+//@   ensures one-per-srv-record: (ret(lookupSRV, 1) == nil && len(ret(lookupSRV, 0)) > 0) ==> len(results) == len(ret(lookupSRV, 0))
+//@   ensures default-port: !(ret(lookupSRV, 1) == nil && len(ret(lookupSRV, 0)) > 0) ==> len(results) == 1
+//@   loop 1: invariant 0 <= idx(1) && idx(1) <= len(records) && len(results) == idx(1) && (forall i int :: 0 <= i && i < len(results) ==> (results[i].Host == serverName && results[i].TLSServerName == string(serverName)))
+
+//@ func resolveServer
+//@   property C16
+//@   ensures invalid-name: !serverNameOK(string(serverName)) ==> err != nil
+//@   ensures ip-literal: (serverNameOK(string(serverName)) && ipOK(bareHost(snHost(string(serverName))))) ==> (err == nil && len(results) == 1 && results[0].Host == serverName && results[0].TLSServerName == bareHost(snHost(string(serverName))) && results[0].Destination == ((snPort(string(serverName)) == 0 - 1) ? joinHostPort(bareHost(snHost(string(serverName))), itoa(8448)) : string(serverName)))
+//@   ensures explicit-port: (serverNameOK(string(serverName)) && !ipOK(bareHost(snHost(string(serverName)))) && snPort(string(serverName)) != 0 - 1) ==> (err == nil && len(results) == 1 && results[0].Host == serverName && results[0].TLSServerName == snHost(string(serverName)) && results[0].Destination == string(serverName))
+//@   ensures well-known-only-when-asked: called(LookupWellKnown) ==> (checkWellKnown && serverNameOK(string(serverName)) && !ipOK(bareHost(snHost(string(serverName)))) && snPort(string(serverName)) == 0 - 1)
+//@   ensures delegation: (called(LookupWellKnown) && ret(LookupWellKnown, 1) == nil) ==> (called(resolveServer) && tuple(results, err) == ret(resolveServer))
+//@   ensures srv-or-default: (serverNameOK(string(serverName)) && !ipOK(bareHost(snHost(string(serverName)))) && snPort(string(serverName)) == 0 - 1 && !(called(LookupWellKnown) && ret(LookupWellKnown, 1) == nil)) ==> (err == nil && called(handleNoWellKnown) && results == ret(handleNoWellKnown))
+//@   ensures well-known-consulted: (checkWellKnown && serverNameOK(string(serverName)) && !ipOK(bareHost(snHost(string(serverName)))) && snPort(string(serverName)) == 0 - 1) ==> called(LookupWellKnown)
+//@   calls LookupWellKnown@root for-this-name: serverNameType == root_serverName
+//@   calls resolveServer@root delegated-name-without-a-further-well-known-lookup: serverName == ret(LookupWellKnown, 0).NewAddress && !checkWellKnown
+//@   calls handleNoWellKnown@root for-this-name: serverName == root_serverName
